@@ -6,6 +6,7 @@ import Goirc.Spec.Wire
 import Goirc.Model.Flood
 import Goirc.Spec.Flood
 import Driver.LineIO
+import Driver.TrackerIO
 /-!
 # Line-protocol oracle: one request per line on stdin, one reply per line on stdout.
 
@@ -151,15 +152,24 @@ def handle (words : List String) : String :=
     | _, _, _ => "bad-op"
   | _ => "bad-op"
 
-partial def loop (hin hout : IO.FS.Stream) : IO Unit := do
+structure DState where
+  tk : Option TkState := none
+
+def handleSt (st : DState) (words : List String) : DState × String :=
+  match words with
+  | "tk" :: ws => let (t, r) := tkHandle st.tk ws; ({ st with tk := t }, r)
+  | _ => (st, handle words)
+
+partial def loop (hin hout : IO.FS.Stream) (st : DState) : IO Unit := do
   let line ← hin.getLine
   if line.isEmpty then return ()
   let words := (line.trimAscii.toString.splitOn " ").filter (· ≠ "")
-  hout.putStrLn (handle words)
-  loop hin hout
+  let (st', r) := handleSt st words
+  hout.putStrLn r
+  loop hin hout st'
 
 def main : IO Unit := do
   let hin ← IO.getStdin
   let hout ← IO.getStdout
-  loop hin hout
+  loop hin hout {}
   hout.flush
